@@ -976,6 +976,9 @@ def lattice_c07(tier):
         pts.append(Point((F("a", ann, d, "-", role, over=over),)))
         pts.append(Point((F("a", ann, d, "-", role, over=over), F("b", "Hs", "value", "-", "kw_only"))))
         pts.append(Point((F("a", ann, d, "-", role, over=over),), base="plain"))
+    # aliased fields read with the name as a fallback: a present key (also an explicit null under the alias) wins
+    for (ann, d), src, allow in itertools.product(KINDS, ALIASES[1:], (False, True)):
+        pts.append(Point((F("a", ann, d, src),), allow_not_by_alias=allow))
     # constructor-argument assembly: sequences of field roles
     seq_kinds = [
         ("Hs", "MISSING", "pos"),
